@@ -103,7 +103,7 @@ def run_case(case, casedir, keep=False):
     case.setdefault("repo", common.REPO)
     case.setdefault("python", common.PY)
     with open(os.path.join(casedir, "case.json"), "w") as f:
-        json.dump(case, f)
+        json.dump({k: v for k, v in case.items() if not k.startswith("_")}, f)
     to = case.get("timeouts", {})
     outer = float(to.get("hard_s", 120)) + float(to.get("tree_wait_s", 8)) + 30
     cmd = [common.PY, os.path.join(common.VERIF, "harness", "caseinit.py"), casedir]
@@ -131,7 +131,7 @@ def run_case(case, casedir, keep=False):
     return h
 
 
-def run_cases(cases, analyse, jobs=None, budget_s=None, scratch=None, progress=None):
+def run_cases(cases, analyse, jobs=None, budget_s=None, scratch=None, progress=None, strip=()):
     """Run cases in parallel. analyse(case, history) is called in the calling
     thread's pool worker; it must copy what it wants to keep (the case
     directory is removed right after, unless it returns 'keep')."""
